@@ -17,6 +17,14 @@ use std::sync::atomic::{AtomicU64, Ordering};
 use std::sync::{Arc, Mutex};
 use std::time::{Duration, Instant};
 
+/// serde_json's default recursion limit (128) is too small for nesting ladders
+fn parse_deep(line: &str) -> Result<Value, serde_json::Error> {
+    use serde::Deserialize;
+    let mut de = serde_json::Deserializer::from_str(line);
+    de.disable_recursion_limit();
+    Value::deserialize(&mut de)
+}
+
 fn arg(args: &[String], name: &str) -> Option<String> {
     args.iter().position(|a| a == name).and_then(|i| args.get(i + 1).cloned())
 }
@@ -74,7 +82,7 @@ fn worker(args: &[String]) -> i32 {
                 }
                 CASE_INDEX.store(i as u64, Ordering::SeqCst);
                 CASE_START_MS.store(now_ms(t0), Ordering::SeqCst);
-                let evs = match serde_json::from_str::<Value>(&line) {
+                let evs = match parse_deep(&line) {
                     Ok(case) => {
                         if case.get("kind").and_then(|k| k.as_str()).map_or(false, |k| k.ends_with("lit")) {
                             litcase::process(&case)
@@ -135,7 +143,7 @@ fn replay(args: &[String]) -> i32 {
                 let mut ended = true;
                 let mut timed_out = false;
                 for l in txt.lines() {
-                    if let Ok(v) = serde_json::from_str::<Value>(l) {
+                    if let Ok(v) = parse_deep(l) {
                         match v["ev"].as_str() {
                             Some("Begin") => {
                                 last_begin = v["idx"].as_u64();
@@ -178,9 +186,12 @@ fn replay(args: &[String]) -> i32 {
         let part = format!("{}.part{}", outp, j);
         if let Ok(txt) = std::fs::read_to_string(&part) {
             for l in txt.lines() {
-                let v: Value = match serde_json::from_str(l) {
+                let v: Value = match parse_deep(l) {
                     Ok(v) => v,
-                    Err(_) => continue,
+                    Err(_) => {
+                        extra.push(json!({"ev": "ToolError", "msg": "unparseable event line from worker"}).to_string());
+                        continue;
+                    }
                 };
                 match v["ev"].as_str() {
                     Some("Begin") | Some("End") => {}
